@@ -19,6 +19,25 @@ import tracecheck
 INF = float("inf")
 
 
+class Hang(Exception):
+    """A call that did not return within the watchdog time (e.g. scanning an endless stream)."""
+
+
+def _alarm(signum, frame):
+    raise Hang()
+
+
+def watchdog(seconds):
+    import signal
+    signal.signal(signal.SIGALRM, _alarm)
+    signal.setitimer(signal.ITIMER_REAL, seconds)
+
+
+def watchdog_off():
+    import signal
+    signal.setitimer(signal.ITIMER_REAL, 0)
+
+
 def parse_tok(tok):
     if tok == "None":
         return None
@@ -40,12 +59,27 @@ APPEND = {"list": ([7, 8],), "empty": ([],), "scalar": (9,), "cycle": (5, 6)}
 class World(object):
     """The real objects of one history."""
 
-    def __init__(self, al, pre, per):
+    def __init__(self, al, pre, per, route=0):
+        """The same abstract base sequence can be built from many real iterables: `route` picks one."""
+        import itertools as it
         self.al = al
+        pre, per = list(pre), list(per)
         if per:
-            self.handles = [al.Stream(*per)] if len(per) > 1 else [al.Stream(per[0])]
+            opts = [lambda: al.Stream(*per) if len(per) > 1 else al.Stream(per[0]),
+                    lambda: al.Stream(it.cycle(per)),
+                    lambda: al.Stream(x for x in it.cycle(per))]
+            if len(per) == 1:
+                opts += [lambda: al.Stream(it.repeat(per[0])), lambda: al.lazy_itertools.repeat(per[0])]
         else:
-            self.handles = [al.Stream(list(pre))]
+            opts = [lambda: al.Stream(list(pre)), lambda: al.Stream(tuple(pre)), lambda: al.Stream(x for x in pre),
+                    lambda: al.Stream(iter(pre)), lambda: al.Stream(al.Stream(pre)),
+                    lambda: al.Stream(pre[:1], pre[1:])]
+            if pre and all(x == pre[0] for x in pre):
+                opts += [lambda: al.Stream(it.repeat(pre[0], len(pre))),
+                         lambda: al.lazy_itertools.repeat(pre[0], len(pre))] * 2
+            if pre and pre == list(range(pre[0], pre[0] + len(pre))):
+                opts += [lambda: al.Stream(range(pre[0], pre[0] + len(pre)))]
+        self.handles = [opts[route % len(opts)]()]
         self.hub = None
 
     def call(self, e):
@@ -124,7 +158,8 @@ class World(object):
                 self.hub.take(1)
                 return ("bad-return", 0)
             raise tlc.MachineryError("unknown op %s" % op)
-        except (StopIteration, IndexError, AttributeError, RuntimeError, TypeError, ValueError, OverflowError) as ex:
+        except (StopIteration, IndexError, AttributeError, RuntimeError, TypeError, ValueError, OverflowError,
+                Hang) as ex:
             return ("exc", type(ex).__name__)
 
 
@@ -163,10 +198,16 @@ def m2(ctx, al, cfg, what, need=None):
             continue
         for e in hist[1:]:
             ops_seen[e["op"]] = ops_seen.get(e["op"], 0) + 1
-        w = World(al, hist[0]["pre"], hist[0]["per"])
+        w = World(al, hist[0]["pre"], hist[0]["per"], route=n)
         got = None
-        for e in hist[1:]:
-            got = w.call(e)
+        watchdog(5.0)
+        try:
+            for e in hist[1:]:
+                got = w.call(e)
+                if got == ("exc", "Hang"):
+                    break
+        finally:
+            watchdog_off()
         want = spec_ret(st["ret"])
         ctx.count(1, nontrivial_key=n if len(hist) >= 3 else None)
         if n % 9973 == 0:
@@ -193,11 +234,14 @@ FLOAT_TOKS = ["1.4", "1.6", "3.7", "2.7", "0.4", "6.2", "9.8", "-2.5", "-0.3", "
 def record_history(ctx, al, length):
     """One random history on real objects, with driver-side tracking only of what the guards need."""
     rng = ctx.rng
-    if rng.random() < 0.3:
+    c = rng.random()
+    if c < 0.3:
         pre, per = [], [rng.randint(1, 9) for _ in range(rng.randint(1, 3))]
+    elif c < 0.45:
+        pre, per = [rng.randint(1, 9)] * rng.randint(1, 12), []          # constant finite stream (repeat(v, k))
     else:
         pre, per = [rng.randint(1, 9) for _ in range(rng.randint(0, 20))], []
-    w = World(al, pre, per)
+    w = World(al, pre, per, route=rng.randrange(1000))
     endless = [bool(per)]
     live = [True]
     hub_endless = False
@@ -284,7 +328,11 @@ def record_history(ctx, al, length):
         elif op == "hcopy":
             if len(live) >= maxh:
                 continue
-        rt, rv = w.call(e)
+        watchdog(5.0)
+        try:
+            rt, rv = w.call(e)
+        finally:
+            watchdog_off()
         if op == "copy" and rt == "new":
             live.append(True)
             endless.append(endless[e["h"] - 1])
